@@ -29,7 +29,7 @@ REQUIRED_CLASSES = ['material-number-fraction', 'material-mass-fraction', 'subst
                     'scaling-k<1', 'scaling-k>1', 'duality-number-to-mass', 'duality-mass-to-number',
                     'repeated-substance-in-string', 'composite-from-addition', 'composite-from-add-method',
                     'composite-from-number-times-material', 'shared-component-accumulated', 'operands-rechecked-after-sum']
-REQUIRED_MONITORS = ['fraction_rows_checked', 'sum_rows_checked', 'scaling_twins_compared', 'duality_twins_compared',
+REQUIRED_MONITORS = ['mode_twin_tables', 'fraction_rows_checked', 'sum_rows_checked', 'scaling_twins_compared', 'duality_twins_compared',
                      'table_hygiene_checks']
 ASSUMPTIONS = ['component masses m_i are taken from data_components() (their correctness is C10)',
                'inside a material string the substances are written in short notation (no explicit " + " / " * "), amounts as '
@@ -155,6 +155,8 @@ def gen_arith(rng, T, natural, k):
 
 def read_composite(obj, amount_col):
     """-> (order, amounts reported, masses reported, x, X, sum row) from the public tables"""
+    from vt.props import mat_modes
+    mat_modes.check(obj)        # both reading modes of the tables (plain numbers / default Quantity cells) agree
     dc = obj.data_components(quantity=False)
     ds = obj.data_composite(quantity=False)
     order, amt, mass, x, X = [], {}, {}, {}, {}
@@ -251,6 +253,11 @@ def cut(what, fn):
 
 
 def run_case(case, ctx):
+    from vt.props import mat_modes
+    return mat_modes.drain(_run_case_outer(case, ctx))
+
+
+def _run_case_outer(case, ctx):
     mon = dict(fraction_rows_checked=0, sum_rows_checked=0, scaling_twins_compared=0, duality_twins_compared=0)
     devs, classes = [], set()
     try:
